@@ -2,7 +2,9 @@
 #include "pv.h"
 
 static unsigned g_mask = 7;
-static void set_mask(unsigned m) { if (m != g_mask) { pv_api_enable_features(m); g_mask = m; } }
+static unsigned g_maskcalls;
+/* "only the least significant 3 bits are used": half of the enabling calls carry arbitrary higher bits (the internal bit 3 among them) */
+static void set_mask(unsigned m) { if (m != g_mask) { static const unsigned HI[] = { 0, 8, 0x18, 0xf8, 0xfffffff8u, 0x100, 0x80000008u }; pv_api_enable_features(m | HI[g_maskcalls++ % (sizeof HI / sizeof *HI)]); g_mask = m; } }
 
 static void init(void) {
     pv_world_init(pv.seed);
@@ -77,6 +79,22 @@ static void run_round(uint64_t idx, pv_rng* rng) {
         pv_w->time_value = pv_m_birthday_time(m.birthday) + 17;
         polyseed_data* c = NULL;
         if (pv_api_create(m.features, &c) == POLYSEED_OK) { pv_api_store(c, o); if (memcmp(o, img, 32)) pv_violation("C06/store-bytes", "created seed %s: store %s, specification %s", pv_mseed_str(&m), pv_hex(o, 32), pv_hex(img, 32)); else PV_COUNT("roundtrip.created_ok", 1); pv_api_free(c); }
+        pv_set_rand_prng();
+    }
+    /* created while the clock is outside the 1024-month range (a wallet used after 2107, a broken clock): the image must still
+     * be the canonical image of what the getters report, and it must load */
+    if (idx % 16 == 5 && !(m.features & 16)) {
+        static const uint64_t ODD[] = { 0, 1, PV_EPOCH - 1, PV_EPOCH + 1024 * PV_STEP, PV_EPOCH + 1024 * PV_STEP + 1, PV_EPOCH + 1025 * PV_STEP, PV_EPOCH + 2047 * PV_STEP + 5, 1ull << 32, (1ull << 32) + PV_EPOCH, 1ull << 33, 1ull << 63, (1ull << 63) - 1, UINT64_MAX, UINT64_MAX - 1, 0xFFFFFFFF80000000ull };
+        uint64_t t = ODD[(idx / 16) % (sizeof ODD / sizeof *ODD)];
+        uint8_t script[19]; memcpy(script, m.secret, 19); pv_set_rand_script(script, 19); pv_w->time_value = t;
+        polyseed_data* c = NULL;
+        if (pv_api_create(m.features, &c) == POLYSEED_OK) {
+            pv_mseed mc = m; mc.birthday = pv_m_birthday_of(t); uint8_t ci[32]; pv_m_image(&mc, ci);
+            pv_api_store(c, o);
+            if (memcmp(o, ci, 32)) pv_violation("C06/store-bytes", "seed created at clock %llu: store %s, specification %s", (unsigned long long)t, pv_hex(o, 32), pv_hex(ci, 32));
+            else { polyseed_data* t2 = NULL; int st = pv_api_load(o, &t2); if (st != POLYSEED_OK) pv_violation("C06/roundtrip", "seed created at clock %llu: load(store(s)) -> %s", (unsigned long long)t, pv_status_name(st)); else { pv_api_free(t2); PV_COUNT("roundtrip.created_with_out_of_range_clock_ok", 1); } }
+            pv_api_free(c);
+        }
         pv_set_rand_prng();
     }
     if (idx < 3) pv_sample("roundtrip", "seed %s <-> %s", pv_mseed_str(&m), pv_hex(img, 32));
